@@ -476,7 +476,7 @@ Proof.
 Qed.
 Lemma tokens_kfree s : kfree s -> Forall kfree (spdx_tokens s).
 Proof.
-  intros F. unfold spdx_tokens, split_ws. apply Forall_forall. intros w H. apply filter_In in H as [H _].
+  intros F. rewrite spdx_tokens_split. unfold split_ws. apply Forall_forall. intros w H. apply filter_In in H as [H _].
   apply split_raw_incl in H. intros K. apply H in K. apply pad_in in K as [K|K]; [discriminate|contradiction].
 Qed.
 
@@ -488,8 +488,8 @@ Theorem canon_spec s : kfree s ->
               else if nests_deeper_than limit_sure (spdx_tokens s) then Limit o else Ok o
   end.
 Proof.
-  intros F. rewrite canon_split. fold (spdx_tokens s).
-  rewrite canon_toks_spec by (auto using tokens_kfree; apply split_ws_clean).
+  intros F. rewrite canon_split. rewrite <- spdx_tokens_split.
+  rewrite canon_toks_spec by (auto using tokens_kfree; rewrite spdx_tokens_split; apply split_ws_clean).
   unfold spec_canon, spec_toks. destruct (spdx_tokens_ok lics excs (spdx_tokens s)); [|reflexivity].
   destruct (canon_tokens lics excs false (spdx_tokens s)); reflexivity.
 Qed.
